@@ -5,6 +5,7 @@ import (
 	"encoding/hex"
 	"encoding/json"
 	"fmt"
+	ethcrypto "github.com/ethereum/go-ethereum/crypto"
 	"math/big"
 	"math/rand/v2"
 	"sort"
@@ -556,10 +557,88 @@ func fmtLogs(ls []*ethtypes.Log) string {
 }
 
 // c10AfterBlock: the allowance views of every token agree with the model for every pair ever used.
+// c10LogsVsBank: whatever an Ethereum tx does (one precompile call or many, through whatever frames, some of them
+// reverted), the Transfer logs a token emitted in it and the movements of its bank denomination are the same thing:
+// per account, balance delta = sum of logged credits - sum of logged debits; supply delta = minted - burnt.
+// (Not for the fee denomination, which also moves as fee and as call value.)
+func c10LogsVsBank(w *World, rec *BlockRecord, t *TxInfo) {
+	r := w.R
+	if t.EthTx == nil || !t.HasEthEvent || t.Obs == nil || t.Obs.After == nil {
+		return
+	}
+	toks, denoms := w.erc20Tokens()
+	pre, post := ViewOf(t.Obs.Before), ViewOf(t.Obs.After)
+	transferTopic := common.BytesToHash(ethcrypto.Keccak256([]byte("Transfer(address,address,uint256)")))
+	for i, tok := range toks {
+		denom := denoms[i]
+		if denom == BaseDenom {
+			continue
+		}
+		net := map[common.Address]*big.Int{}
+		add := func(a common.Address, v *big.Int) {
+			if net[a] == nil {
+				net[a] = new(big.Int)
+			}
+			net[a].Add(net[a], v)
+		}
+		nLogs := 0
+		if t.HasReceipt && t.Rc.Receipt != nil {
+			for _, l := range t.Rc.Receipt.Logs {
+				if l.Address != tok || len(l.Topics) != 3 || l.Topics[0] != transferTopic || len(l.Data) != 32 {
+					continue
+				}
+				nLogs++
+				v := new(big.Int).SetBytes(l.Data)
+				from, to := common.BytesToAddress(l.Topics[1][12:]), common.BytesToAddress(l.Topics[2][12:])
+				if from != (common.Address{}) {
+					add(from, new(big.Int).Neg(v))
+				}
+				if to != (common.Address{}) {
+					add(to, v)
+				}
+			}
+		}
+		seen := map[common.Address]bool{}
+		var addrs []common.Address
+		for _, a := range append(pre.Addresses(), post.Addresses()...) {
+			if !seen[a] {
+				seen[a] = true
+				addrs = append(addrs, a)
+			}
+		}
+		for a := range net {
+			if !seen[a] {
+				seen[a] = true
+				addrs = append(addrs, a)
+			}
+		}
+		sort.Slice(addrs, func(i, j int) bool { return bytes.Compare(addrs[i][:], addrs[j][:]) < 0 })
+		r.At(rec.Height, t.Pos)
+		r.Count("o:erc20_logs_vs_bank_checked")
+		r.Probe("erc20_tx_with_several_transfer_logs", nLogs > 1)
+		for _, a := range addrs {
+			delta := new(big.Int).Sub(post.Balance(a, denom), pre.Balance(a, denom))
+			want := net[a]
+			if want == nil {
+				want = new(big.Int)
+			}
+			if delta.Cmp(want) != 0 {
+				how := "bank_moved_without_log"
+				if want.Sign() != 0 {
+					how = "log_without_matching_bank_move"
+				}
+				r.Violate("C10", "transfer_logs_vs_bank", map[string]string{"how": how}, "token %s (%s): balance of %s changed by %s in the tx, its Transfer logs add up to %s (%d Transfer logs)", tok.Hex(), denom, a.Hex(), delta, want, nLogs)
+				break
+			}
+		}
+	}
+}
+
 func c10AfterBlock(w *World, rec *BlockRecord, txs []*TxInfo) {
 	for _, t := range txs {
 		if !w.c10().Off {
 			oracleC10(w, rec, t)
+			c10LogsVsBank(w, rec, t)
 		}
 	}
 	m := w.c10()
@@ -779,11 +858,21 @@ func genC10(rng *rand.Rand, seed uint64, tier string) *Script {
 	for i := 0; i < 2; i++ {
 		ops = append(ops, Op{K: "bank", W: 1, To: fmt.Sprintf("c:router%d", i), Val: "5000000", Denom: pick(rng, BaseDenom, "utwo"), Price: "b+1", Gas: "200000"})
 	}
+	// the orchestrator of multi-call transactions and its routers hold every token
+	for _, c := range []string{"c:seq", "c:router0", "c:router1", "c:router2"} {
+		for _, d := range []string{BaseDenom, "utwo", "uthree"} {
+			ops = append(ops, Op{K: "bank", W: 2, To: c, Val: "900000000", Denom: d, Price: "b+1", Gas: "200000"})
+		}
+	}
 	ops = append(ops, Op{K: "block", Dt: 5})
 	nb := 4 + rng.IntN(8)
 	for b := 0; b < nb; b++ {
 		for i, n := 0, 1+rng.IntN(6); i < n; i++ {
-			switch k := rng.IntN(20); {
+			switch k := rng.IntN(23); {
+			case k >= 20: // several precompile calls in one tx, through frames of which some revert
+				wop := genWitness(rng, &g)
+				wop.To = fmt.Sprintf("erc20:%d", rng.IntN(nTok))
+				ops = append(ops, wop)
 			case k < 16:
 				ops = append(ops, genErc20Op(rng, &g, nTok, share))
 			case k < 18:
